@@ -85,12 +85,16 @@ Visible(frames) ==
   ELSE IF frames[1].t = "PREFACE" /\ Len(frames) > 1 THEN <<frames[2] @@ [pre |-> TRUE]>> \o Visible(SubSeq(frames, 3, Len(frames)))
   ELSE <<frames[1]>> \o Visible(Tail(frames))
 \* take the output buffer of side x, hand it to the peer's channel in pair mode
+\* (a step recorded from an application that takes the output when it pleases carries ap: the observation is what the step
+\* APPENDED to the output buffer -- everything in it if the buffer was discarded meanwhile -- and the buffer is left alone)
+Appended(old, new) == IF Len(new) >= Len(old) /\ SubSeq(new, 1, Len(old)) = old THEN SubSeq(new, Len(old) + 1, Len(new)) ELSE new
 Flush(S, x, ep, nf) ==
   IF nf THEN [S |-> [S EXCEPT !.eps[x] = ep], o |-> <<>>]
   ELSE [S |-> [S EXCEPT !.eps[x] = [ep EXCEPT !.out = <<>>],
                         !.chan = IF Pair THEN [@ EXCEPT ![Other(x)] = @ \o Visible(ep.out)] ELSE @],
         o |-> ep.out]
-NoFlush(s) == "nf" \in DOMAIN s /\ s.nf
+NoFlush(s) == ("nf" \in DOMAIN s /\ s.nf) \/ ("ap" \in DOMAIN s /\ s.ap)
+IsAp(s) == "ap" \in DOMAIN s /\ s.ap
 
 Pred(r, o, ev, ep) == [r |-> r, o |-> PubFrames(o), e |-> ev, q |-> Queries(ep, QSids), z |-> Z(ep), u |-> ep.hd]
 
@@ -116,7 +120,8 @@ Do(S, s) ==
                       ELSE s.c
                 r == Call(ep, ResolveCall(cc))
                 fl == Flush(S, x, r.ep, NoFlush(s))
-            IN [S |-> fl.S, last |-> s @@ [p |-> Pred(r.r, fl.o, <<>>, r.ep), dev |-> r.ep.dev]]
+                o == IF IsAp(s) THEN Appended(ep.out, r.ep.out) ELSE fl.o
+            IN [S |-> fl.S, last |-> s @@ [p |-> Pred(r.r, o, <<>>, r.ep), dev |-> r.ep.dev]]
        [] s.a = "recv" ->
             \* the harness peer of a server starts its first input with the client preface (unless the step says nopre)
             LET fs0 == [i \in 1..Len(s.fs) |-> ResolveFrame(s.fs[i], ep)]
@@ -124,7 +129,12 @@ Do(S, s) ==
                        THEN <<fs0[1] @@ [pre |-> TRUE]>> \o Tail(fs0) ELSE fs0
                 r == Receive(ep, fs1)
                 fl == Flush(S, x, r.ep, NoFlush(s))
-            IN [S |-> fl.S, last |-> s @@ [p |-> Pred(r.r, fl.o, r.ev, r.ep) @@ [ux |-> Unpredictable(S, s)], dev |-> r.ep.dev]]
+                o == IF IsAp(s) THEN Appended(ep.out, r.ep.out) ELSE fl.o
+            IN [S |-> fl.S, last |-> s @@ [p |-> Pred(r.r, o, r.ev, r.ep) @@ [ux |-> Unpredictable(S, s)], dev |-> r.ep.dev]]
+       \* the application takes (data_to_send) or discards (clear_outbound_data_buffer) the whole output buffer
+       [] s.a = "take" ->
+            [S |-> [S EXCEPT !.eps[x] = [ep EXCEPT !.out = <<>>]],
+             last |-> s @@ [p |-> Pred(OK, <<>>, <<>>, [ep EXCEPT !.out = <<>>]), dev |-> ep.dev]]
        [] s.a = "dlv" ->
             LET fs == SubSeq(S.chan[x], 1, s.k)
                 r == Receive(ep, fs)
